@@ -13,7 +13,7 @@
     [py_call fds i vs] is the value CPython gives function i on arguments vs ([None] = no numeric
     value); [fn_to_sympy fs fds i margs] is the translator's result ([None] = no expression; [margs = []]
     is model_args=None); [seval rho e] is the value of a SymPy expression under the valuation rho. *)
-From FnSym Require Import FnToSym ConstEnv GenFnSymFacts SymProofs FnToSymProofs FnToSymProofs2 FnToSymRefuted.
+From FnSym Require Import FnToSym ConstEnv Resolve GenFnSymFacts SymProofs FnToSymProofs FnToSymProofs2 FnToSymRefuted ResolveProofs ResolveRefuted.
 
 Theorem C06_facts_pinned :
   gen_fnsym_facts =
@@ -460,3 +460,149 @@ Example C06_stored_none_shapes :
              seval (fun x => assoc x [(7%N, 3#1)]) e = Some (18#1)).
 Proof. exact stored_none_shapes. Qed.
 Print Assumptions C06_stored_none_shapes.
+
+
+(** ======================================================================================================
+    NAME RESOLUTION and LAMBDAS (round-3 closing: seeded C06-9, C06-10; Resolve.v).
+    [gen_fnsym_rfacts] is REGENERATED from source_tools.py like [gen_fnsym_facts]: the operand order of the three
+    `dict(inspect.getmembers(ctx.parent_module, ...)) | ctx.fns / ctx.modules` merges (in _handle_attribute and, twice,
+    in _handle_call), under which name `_handle_fn_body` records a function-local import written with `as`, and what
+    `get_fn_ast` does when it is handed a lambda.  The last two are switches (ExpectedFacts.v) with recorded findings. *)
+Theorem C06_rfacts_pinned :
+  gen_fnsym_rfacts = mkRFacts ScopeLocalWins C06_expected_alias C06_expected_lambda.
+Proof. vm_compute. reflexivity. Qed.
+Print Assumptions C06_rfacts_pinned.
+
+(** Every name of a function body -- the callee of `scale(x)`, the module of `consts.K` / `consts.sat(x)` -- is
+    resolved by the translator to the object CPython uses: the function-local import (newest first) if there is one,
+    else the member of the defining module; for EVERY module-level table, every list of import statements and every
+    name.  [alias_ok] is [True] once fixes/C06-import-alias.diff is in; for the shipped code it is the guard "no import
+    of the function is written with `as`" -- its complement is the recorded finding local-import-alias-ignored. *)
+Theorem C06_names_resolved_as_python :
+  forall modlevel ds x,
+    alias_ok gen_fnsym_rfacts ds ->
+    resolve gen_fnsym_rfacts modlevel ds x = py_resolve modlevel ds x.
+Proof. exact (resolve_is_python gen_fnsym_rfacts C06_rfacts_pinned). Qed.
+Print Assumptions C06_names_resolved_as_python.
+
+(** SOUNDNESS for programs with function-local imports.  [ns]: functions with their import statements, calls carry
+    NAMES; [resolve_prog] is the program as the translator resolves it, [py_resolve_prog] as CPython does;
+    [modlevel m] are the members of module m.  What the translator returns equals the function CPython runs. *)
+Theorem C06_sound_with_local_imports :
+  forall modlevel ns first now i margs e vs v rho,
+    Forall (fun nf => alias_ok gen_fnsym_rfacts (nf_imports nf)) ns ->
+    arity_ok gen_fnsym_facts (map (at_env now) (py_resolve_prog modlevel ns)) ->
+    margs <> [] ->
+    translate gen_fnsym_facts first now (resolve_prog gen_fnsym_rfacts modlevel ns) i margs = Some e ->
+    py_value now (py_resolve_prog modlevel ns) i vs = Some v ->
+    Forall2 (fun m x => seval rho m = Some x) margs vs ->
+    seval rho e = Some v.
+Proof. exact (sound_named gen_fnsym_facts gen_fnsym_rfacts C06_facts_pinned C06_rfacts_pinned). Qed.
+Print Assumptions C06_sound_with_local_imports.
+
+(** why no test of the repository sees the operand order: unless a name is bound to DIFFERENT objects by a local
+    import and at module level, `members | local` and `local | members` are the same table *)
+Theorem C06_merge_orders_agree_without_collision :
+  forall (modlevel loc : table) x,
+    (forall o1 o2, assoc x loc = Some o1 -> assoc x modlevel = Some o2 -> o1 = o2) ->
+    lookup_obj (loc ++ modlevel) x = lookup_obj (modlevel ++ loc) x.
+Proof. exact merge_orders_agree. Qed.
+Print Assumptions C06_merge_orders_agree_without_collision.
+
+(** regression (seeded C06-9, operands swapped: the module-level binding shadows the local import):
+      module level  `from fast import scale`  (scale(x) = 2 x);   def local_fn(s): from slow import scale; return scale(s)
+    with slow.scale(x) = 3 x is translated to 2*S; Python computes 3 at s = 1. *)
+Theorem C06_module_level_wins_refuted :
+  exists e v rho,
+    translate expected_facts [] [] (resolve_prog rf_module_wins w_modlevel [w_fast_scale; w_slow_scale; w_local_fn]) 2 [SSym 1%N] = Some e /\
+    py_value [] (py_resolve_prog w_modlevel [w_fast_scale; w_slow_scale; w_local_fn]) 2 [1#1] = Some v /\
+    Forall2 (fun m x => seval rho m = Some x) [SSym 1%N] [1#1] /\
+    seval rho e <> Some v.
+Proof. exact module_wins_wrong. Qed.
+Print Assumptions C06_module_level_wins_refuted.
+
+(** finding local-import-alias-ignored (the SHIPPED alias rule): `from slow import scale as sc; return scale(s)` --
+    the translator binds `scale` to slow.scale (3*S), Python still calls the module-level scale (2 at s = 1) *)
+Theorem C06_alias_ignored_refuted :
+  exists e v rho,
+    translate expected_facts [] [] (resolve_prog rf_alias_ignored w_modlevel [w_fast_scale; w_slow_scale; w_alias_fn]) 2 [SSym 1%N] = Some e /\
+    py_value [] (py_resolve_prog w_modlevel [w_fast_scale; w_slow_scale; w_alias_fn]) 2 [1#1] = Some v /\
+    Forall2 (fun m x => seval rho m = Some x) [SSym 1%N] [1#1] /\
+    seval rho e <> Some v.
+Proof. exact alias_ignored_wrong. Qed.
+Print Assumptions C06_alias_ignored_refuted.
+
+(** non-vacuity and the repaired side: with local-wins the local_fn witness is translated to Python's value under either
+    alias rule; the shipped alias rule REFUSES a function that uses its alias (`return sc(s)`: visible); the repaired
+    rule translates both alias witnesses to Python's value *)
+Example C06_resolution_nonvacuous :
+  (named_right_on expected_facts rf_repaired w_modlevel [w_fast_scale; w_slow_scale; w_local_fn] 2 [SSym 1%N] [1#1]
+   /\ named_right_on expected_facts rf_alias_ignored w_modlevel [w_fast_scale; w_slow_scale; w_local_fn] 2 [SSym 1%N] [1#1])
+  /\ (translate expected_facts [] [] (resolve_prog rf_alias_ignored w_modlevel [w_fast_scale; w_slow_scale; w_alias_use]) 2 [SSym 1%N] = None
+      /\ py_value [] (py_resolve_prog w_modlevel [w_fast_scale; w_slow_scale; w_alias_use]) 2 [1#1] = Some (3#1))
+  /\ (named_right_on expected_facts rf_repaired w_modlevel [w_fast_scale; w_slow_scale; w_alias_fn] 2 [SSym 1%N] [1#1]
+      /\ named_right_on expected_facts rf_repaired w_modlevel [w_fast_scale; w_slow_scale; w_alias_use] 2 [SSym 1%N] [1#1]).
+Proof. exact (conj local_wins_right (conj alias_ignored_refuses_use alias_honoured_right)). Qed.
+Print Assumptions C06_resolution_nonvacuous.
+
+(** LAMBDAS.  [st]: the source statement inspect.getsource returns for the lambda ([ls_def]: that statement is a `def`;
+    [ls_lams]: its lambdas in ast.walk order); [translate_lambda .. st i margs] = fn_to_sympy(<i-th lambda>, margs).
+    The translator REFUSES every lambda -- trivially sound.  [lambda_guard] is [True] once
+    fixes/C06-lambda-not-a-def.diff is in; for the shipped code it is "the statement is not a def" -- its complement
+    is the recorded finding lambda-on-def-line. *)
+Theorem C06_lambda_refused :
+  forall fs first now ms m st i margs,
+    lambda_guard gen_fnsym_rfacts st ->
+    translate_lambda gen_fnsym_rfacts fs first now ms m st i margs = None.
+Proof. exact (lambda_refused gen_fnsym_rfacts C06_rfacts_pinned). Qed.
+Print Assumptions C06_lambda_refused.
+
+(** regression (seeded C06-10: the first ast.Lambda of the statement with the same parameter NAMES is wrapped as a def):
+      RATES = {"fwd": lambda s, k: k * s, "bwd": lambda s, k: k * s / (1.0 + s)}
+    RATES["bwd"] is translated to K*S (1 at S = K = 1), Python computes 1/2. *)
+Theorem C06_first_matching_lambda_refuted :
+  exists e v,
+    translate_lambda rf_first_matching expected_facts [] [] [] 0 w_rates 1 [SSym 1%N; SSym 2%N] = Some e /\
+    py_lambda [] [] 0 w_rates 1 [1#1; 1#1] = Some v /\
+    Forall2 (fun m x => seval pt11 m = Some x) [SSym 1%N; SSym 2%N] [1#1; 1#1] /\
+    seval pt11 e <> Some v.
+Proof. exact first_matching_wrong. Qed.
+Print Assumptions C06_first_matching_lambda_refuted.
+
+(** ... and exactly that is what is wrong with the rule: a lambda that is the FIRST of its statement with its parameter
+    list is translated from its own body, hence soundly (for every statement, module, renaming, point) *)
+Theorem C06_first_matching_lambda_sound_when_unique :
+  forall rf, f_lambda rf = LamFirstMatching ->
+  forall first now ms m st i own margs e vs v rho,
+    ls_def st = None -> nth_error (ls_lams st) i = Some own ->
+    (forall j l, (j < i)%nat -> nth_error (ls_lams st) j = Some l -> lam_params l <> lam_params own) ->
+    arity_ok gen_fnsym_facts (map (at_env now) (ms ++ [lam_fun m own])) ->
+    margs <> [] ->
+    translate_lambda rf gen_fnsym_facts first now ms m st i margs = Some e ->
+    py_lambda now ms m st i vs = Some v ->
+    Forall2 (fun a x => seval rho a = Some x) margs vs ->
+    seval rho e = Some v.
+Proof. exact (fun rf H => first_matching_sound_when_unique gen_fnsym_facts rf C06_facts_pinned H). Qed.
+Print Assumptions C06_first_matching_lambda_sound_when_unique.
+
+(** finding lambda-on-def-line (the SHIPPED get_fn_ast):  def rate(s, k, alt=lambda s, k: s + k): return k * s
+    fn_to_sympy(<default value of alt>) with model_args = None returns k*s (2 at s = 1, k = 2), the lambda computes 3;
+    the repaired rule refuses it *)
+Theorem C06_lambda_on_def_line_refuted :
+  (exists e v,
+     nth_error (ls_lams w_def_line) 0 = Some w_alt /\
+     translate_lambda rf_def_line expected_facts [] [] [] 0 w_def_line 0 [] = Some e /\
+     py_lambda [] [] 0 w_def_line 0 [1#1; 2#1] = Some v /\
+     (forall x q, assoc x (combine (lam_params w_alt) [1#1; 2#1]) = Some q -> pt12 x = Some q) /\
+     seval pt12 e <> Some v)
+  /\ (forall fs first now ms m i margs, translate_lambda rf_repaired fs first now ms m w_def_line i margs = None).
+Proof. exact (conj def_line_wrong def_line_refused_when_repaired). Qed.
+Print Assumptions C06_lambda_on_def_line_refuted.
+
+Example C06_lambda_nonvacuous :
+  (exists e, translate_lambda rf_first_matching expected_facts [] [] [] 0 w_rates 0 [SSym 1%N; SSym 2%N] = Some e
+             /\ py_lambda [] [] 0 w_rates 0 [1#1; 1#1] = Some (1#1) /\ seval pt11 e = Some (1#1))
+  /\ (exists e, translate_lambda rf_first_matching expected_facts [] [] [] 0 w_named 1 [SSym 1%N; SSym 2%N] = Some e
+             /\ py_lambda [] [] 0 w_named 1 [1#1; 1#1] = Some (1#2) /\ seval pt11 e = Some (1#2)).
+Proof. exact first_matching_right_when_unique. Qed.
+Print Assumptions C06_lambda_nonvacuous.
